@@ -332,6 +332,7 @@ def c04_rf18(run):
     rf_inline.rf90(run)
     rf_inline.rf91(run)
     rf_inline.rf98(run)
+    rf_fold.rf100(run)
     rf_flow.rf71(run, units=('mir',))
     run.min_instances('RF71', 3)
     rf_fold.rf48(run)
@@ -480,6 +481,7 @@ def c02_rf9(run):
     run.min_instances('RF63', 5)
     rf_x86.rf64(run)
     run.min_instances('RF64', 10)
+    rf_x86.rf101(run)
 
 
 def c02_rf26(run):
@@ -494,6 +496,7 @@ def c02_rf26(run):
     rf_inline.rf51(run)
     rf_fold.rf86(run)
     rf_fold.rf87(run)
+    rf_fold.rf100(run)
 
 
 PLAN = {
